@@ -3,6 +3,7 @@ import json
 from fractions import Fraction
 
 from harness.core import numeval, tb
+from harness.gen import systems
 from harness.props import _shared
 
 PROOF_MODULE = ["OdeVerif.Proofs.C02", "OdeVerif.Proofs.PipelineLossless", "OdeVerif.Proofs.RefineNumeric", "OdeVerif.Proofs.RefineSplit", "OdeVerif.Proofs.RefineFromOde", "OdeVerif.Proofs.RefineFromShapes", "OdeVerif.Proofs.RefineSubSystem", "OdeVerif.Proofs.RefinePreserve"]
@@ -52,6 +53,7 @@ def _extra(rng, g):
     # sometimes add a function-of-time entry that another equation reads
     if rng.random() < 0.2:
         name, f = rng.choice(FUNCS)
+        f = systems.in_time_symbol(f, g["indict"])      # the function is one of the CONFIGURED time variable
         dyn = g["indict"]["dynamics"]
         dyn.append({"expression": "%s = %s" % (name, f)})
         k = rng.randrange(len(dyn) - 1)
@@ -59,7 +61,6 @@ def _extra(rng, g):
         g["has_function"] = True
         for p in ("tau", "tau_s", "w", "C_m"):
             if "parameters" in g["indict"] and p in f + dyn[k]["expression"] and p not in g["indict"]["parameters"]:
-                from harness.gen import systems
                 g["indict"]["parameters"][p] = systems.PARAM_VALUES[p]
 
 
